@@ -152,10 +152,9 @@ pub fn run(_kind: &str, ctx: &Ctx, out: &mut dyn Write) {
         let lines2 = lines.clone();
         pair("stream-queries", vec!["stream-queries".into(), qfile.display().to_string()],
              lib(&mut |d| lines2.iter().map(|l| d.handle_stream_msg(l)).collect::<Vec<_>>().join("\n")));
-        // CNF export (skipped for circuits with a true node: known finding K5)
-        if !inp.desc.contains("keep_true=1") {
-            pair("to-cnf", vec!["to-cnf".into()], lib(&mut |d| ddnnife_cnf::Cnf::from(&*d).to_string()));
-        }
+        // CNF export (every case, circuits with true nodes / childless operations included: K5 and
+        // K10 are repaired by F20)
+        pair("to-cnf", vec!["to-cnf".into()], lib(&mut |d| ddnnife_cnf::Cnf::from(&*d).to_string()));
         let _ = std::fs::remove_file(&file);
         let _ = std::fs::remove_file(&qfile);
         writeln!(s, "end").unwrap();
